@@ -531,6 +531,36 @@ func propC19URL(t *rapid.T) {
 	if port != "" {
 		u.Host = host + ":" + port
 	}
+	// one path, several spellings: a URL builder may escape more than it has to (url.PathEscape escapes ',' and
+	// ';', others escape '.', '~' or letters, or write the hex digits in lower case); the path that is opened is the
+	// DECODED one in every case
+	spelling := rapid.SampledFrom([]string{"canonical", "canonical", "dot", "letter", "lowerhex", "all"}).Draw(t, "spelling")
+	if esc := u.EscapedPath(); spelling != "canonical" {
+		cut := strings.LastIndex(esc, "/") + 1
+		head, tail := esc[:cut], esc[cut:]
+		var sb strings.Builder
+		for i := 0; i < len(tail); i++ {
+			c := tail[i]
+			switch {
+			case c == '%' && i+2 < len(tail)+0 && (spelling == "lowerhex" || spelling == "all"):
+				sb.WriteString(strings.ToLower(tail[i : i+3]))
+				i += 2
+			case c == '%':
+				sb.WriteString(tail[i : i+3])
+				i += 2
+			case c == '.' && (spelling == "dot" || spelling == "all"):
+				sb.WriteString("%2E")
+			case (c >= 'a' && c <= 'z' || c == ';' || c == ',' || c == '+' || c == '&' || c == '=') && (spelling == "letter" || spelling == "all"):
+				fmt.Fprintf(&sb, "%%%02X", c)
+			default:
+				sb.WriteByte(c)
+			}
+		}
+		u.RawPath = head + sb.String()
+		if u.EscapedPath() != u.RawPath {
+			u.RawPath = "" // (not a valid spelling of the path after all)
+		}
+	}
 	raw := u.String()
 	if u.Host == "" && u.User == nil {
 		// url.String omits "//" for an empty authority; write it out (file:///abs/path)
